@@ -104,10 +104,14 @@ def run(ctx):
     cnt = 320 if quick else 4000
     jobs = [{"script": "d_vpsc.py", "stdin_obj": {"seed": seed * 1000 + 500 + k, "count": cnt // core.NCPU, "mode": "large"}}
             for k in range(core.NCPU)]
+    hcnt = 4800 if quick else 96000
+    jobs += [{"script": "d_vpsc.py", "stdin_obj": {"seed": seed * 1000 + 700 + k, "count": hcnt // core.NCPU, "mode": "heavy"}}
+             for k in range(core.NCPU)]
     recs = []
     for out in core.run_drivers_parallel(jobs):
         recs += out["records"]
-    fails = ctx.validate("VpscBig", "VpscBig.cfg", recs, per_shard=50)
+    ctx.extra["certificate_witnesses_proposed"] = sum(r["haswit"] for r in recs)
+    fails = ctx.validate("VpscBig", "VpscBig.cfg", recs, per_shard=400)
     report_failures(ctx, fails, recs, "large")
     ctx.evaluations += len(recs)
     ctx.nontrivial += sum(1 for r in recs if r["rounds"] > 2)
